@@ -25,18 +25,27 @@ try:
     tmpdemo = os.path.join(tmp, "demo.py")
     open(tmpdemo, "w").write(txt2)
     r0 = subprocess.run(["/venv/bin/python", tmpdemo], env=env, cwd=tmp, capture_output=True, text=True)
-    subprocess.run(["git", "-C", repo, "apply", os.path.join(dst, "patch.diff")], check=True)
+    ap = subprocess.run(["git", "-C", repo, "apply", os.path.join(dst, "patch.diff")])
+    if ap.returncode != 0:  # the seed was written against the pinned commit; /repo has "fix:" commits on top
+        subprocess.run(["git", "-C", repo, "apply", "-3", os.path.join(dst, "patch.diff")], check=True)
     r1 = subprocess.run(["/venv/bin/python", tmpdemo], env=env, cwd=tmp, capture_output=True, text=True)
     t = subprocess.run(["/venv/bin/python", "-m", "pytest", "-q", "-p", "no:cacheprovider", "--timeout=900"], cwd=repo,
                        capture_output=True, text=True, env=env)
     tail = t.stdout.strip().split("\n")[-1]
     m = re.search(r"(\d+) failed.*?(\d+) passed", tail) or re.search(r"(\d+) passed", tail)
     res = {}
+    saved = {}
+    for c in checks:
+        ev = os.path.join(V, "evidence", c + ".json")
+        saved[c] = open(ev).read() if os.path.exists(ev) else None
     for c in checks:
         p = subprocess.run(["./check.sh", c, "quick"], cwd=V, env=dict(os.environ, POLLIWOG_REPO=repo), capture_output=True, text=True)
         vio = [l for l in p.stdout.split("\n") if l.startswith("VIOLATION")]
         fails = [l[:300] for l in p.stdout.split("\n") if l.startswith("FAILS") or l.startswith("BROKEN")][:3]
         res[c] = {"exit": p.returncode, "violation_line": vio[0] if vio else None, "detail": fails}
+    for c, txt in saved.items():  # the evidence of the unchanged tree must not be overwritten by a seeded run
+        if txt is not None:
+            open(os.path.join(V, "evidence", c + ".json"), "w").write(txt)
     meta["confirmed"] = {"demo_exit_unchanged": r0.returncode, "demo_exit_with_change": r1.returncode, "pytest_tail": tail,
                          "scratch": "git clone of /repo under $TMPDIR, removed afterwards"}
     meta["our_checks"] = res
